@@ -336,6 +336,10 @@ REQUESTS = {
                                       'class E(enum.IntEnum):\n    A = 1\nclass L(list): pass\n'
                                       'return [P(1, 2), collections.OrderedDict(a=1), collections.defaultdict(int, b=2), S("s"), B(b"b"), E.A, L([3]), '
                                       'tuple(sys.version_info[:2]), sys.version_info[:0], {P(0, 0): S("k")}]',), {}),
+    # an eval leaves nothing behind for the next one
+    'eval-binds-a-global': ('eval', ('global leaked\nleaked = 41\nreturn leaked + 1',), {}),
+    'eval-reads-what-an-earlier-eval-bound': ('eval', ('return [leaked, result]',), {}),
+    'eval-reads-the-wrapper': ('eval', ('return boo.__name__ + str(result)',), {}),
     # attributes of the server object that are no requests
     'attribute-run': ('run', (), {}),
     'attribute-process': ('process', ('eval', ('return 1',), {}), {}),
@@ -455,7 +459,14 @@ def _play(seq, root, Sv, Wire, dumps, loads):
             continue
         try:
             try:
-                r = getattr(ref, name)(*args, **kwargs)
+                if name == 'eval' and len(args) == 1 and not kwargs and isinstance(args[0], str):
+                    # eval is the body of a function run in a namespace of its own: written out here, so that state the server keeps
+                    # between two evals cannot hide in the reference
+                    ns = {}
+                    exec('def boo():\n%s\nresult = boo()' % '\n'.join('    ' + l for l in args[0].splitlines()), ns)
+                    r = ns['result']
+                else:
+                    r = getattr(ref, name)(*args, **kwargs)
                 applied.append((name, args, kwargs))
             except Exception:
                 ref = fresh(applied)
@@ -476,7 +487,7 @@ def _play(seq, root, Sv, Wire, dumps, loads):
 
 
 @harness(['C15'], 'supp.server.Server.run / process over the real codec [request sequences]',
-         bounded='every sequence of 1 and 2 requests, and every failing request followed by two good ones, over 17 request kinds (4 that succeed; non-ASCII text in a source, a result and a message; run and process asked for as requests; unknown '
+         bounded='every sequence of 1 and 2 requests, and every failing request followed by two good ones, over 20 request kinds (4 that succeed; non-ASCII text in a source, a result and a message; run and process asked for as requests; unknown '
                  'method, wrong arguments, exception, unserialisable result (flat and nested), syntax error in the request, an exception whose str() raises); '
                  'a result with nested tuples as map keys; 6 configure requests (2 valid, 4 failing: bad dyn_modules, no sources, not a map, wrong arguments) '
                  'before and between 3 questions whose answer depends on the configured source roots (71 sequences of 2 to 4 requests)')
